@@ -2198,7 +2198,12 @@ void ScriptVariable::operator<<=(const ScriptVariable& value)
         throw ScriptVariableErrors::IncompatibleOperator("<<", type1, type2);
 
     case uint32_t(variableType_e::Integer + variableType_e::Integer * variableType_e::Max): // ( int ) <<= ( int )
-        m_data.long64Value <<= value.m_data.long64Value;
+        if (value.m_data.long64Value < 0 || value.m_data.long64Value >= 64) {
+            // every bit is shifted out (the machine shift is undefined for these counts)
+            m_data.long64Value = 0;
+        } else {
+            m_data.long64Value = (int64_t)((uint64_t)m_data.long64Value << value.m_data.long64Value);
+        }
         break;
     }
 }
@@ -2218,7 +2223,12 @@ void ScriptVariable::operator>>=(const ScriptVariable& value)
 
     // ( int ) >>= ( int )
     case uint32_t(variableType_e::Integer + variableType_e::Integer * variableType_e::Max):
-        m_data.long64Value >>= value.m_data.long64Value;
+        if (value.m_data.long64Value < 0 || value.m_data.long64Value >= 64) {
+            // only the sign is left (the machine shift is undefined for these counts)
+            m_data.long64Value = m_data.long64Value < 0 ? -1 : 0;
+        } else {
+            m_data.long64Value >>= value.m_data.long64Value;
+        }
         break;
     }
 }
